@@ -432,7 +432,7 @@ func (c *Ctx) Verdict() (viol, und, kn []*Obl) {
 	for _, o := range c.Obls {
 		switch o.Status {
 		case Violated:
-			if known[o.ID()] {
+			if known[strings.TrimSuffix(o.ID(), " [GOARCH=386]")] {
 				kn = append(kn, o)
 			} else {
 				viol = append(viol, o)
